@@ -417,7 +417,6 @@ func startCallRoles(cx *Ctx) []startRole {
 	return out
 }
 
-
 // newHelpersOf: the unexported functions of fn's package that fn (or one of its closures) calls directly and that the
 // pinned tree does not have.
 func newHelpersOf(fn *ssa.Function) []*ssa.Function {
